@@ -4,6 +4,7 @@ package c10
 import (
 	"context"
 	"errors"
+	"io/fs"
 	"time"
 
 	"github.com/google/osv-scalibr/detector"
@@ -107,6 +108,32 @@ func VerifInodeAndSizeLimits() {
 	} else {
 		verifrt.Reach("inode-limit-hit")
 	}
+}
+
+// VerifSizeLimitSymlink: with symlink reading on, the size limit applies to what the link resolves
+// to (the file handed to the extractor), not to the link's own directory entry.
+func VerifSizeLimitSymlink() {
+	maxSize := verifrt.IntRange("maxFileSize", 1, 1<<40)
+	target := &symfs.Node{Name: "big", Mode: 0o644, Size: int64(verifrt.IntRange("size", 0, 1<<40)), Data: []byte("x")}
+	link := &symfs.Node{Name: "l.pkg", Mode: fs.ModeSymlink | 0o777, Size: 3, Target: target}
+	fsys := &symfs.FS{Root: symfs.Dir(".", link)}
+	ex := fake.NewExtractor("x", func(string) bool { return true })
+	tooBigSeen := false
+	ex.OnExtract = func(_ context.Context, in *filesystem.ScanInput) (inventory.Inventory, error) {
+		tooBigSeen = verifrt.Or(tooBigSeen, in.Info.Size() > int64(maxSize))
+		return inventory.Inventory{}, nil
+	}
+	_, _, err := filesystem.Run(context.Background(), &filesystem.Config{
+		Extractors:   []filesystem.Extractor{ex},
+		ScanRoots:    []*scalibrfs.ScanRoot{{FS: fsys}},
+		Stats:        stats.NoopCollector{},
+		MaxFileSize:  maxSize,
+		ReadSymlinks: true,
+	})
+	verifrt.Assert(err == nil, "the scan succeeds")
+	verifrt.Assert(verifrt.Not(tooBigSeen), "no file larger than the size limit is handed to an extractor")
+	verifrt.Assert(ex.Extracts["l.pkg"] == verifrt.B2I(target.Size <= int64(maxSize)), "files within the size limit (and all files when the limit is 0) are still extracted")
+	verifrt.Reach("scanned")
 }
 
 // VerifInodeLimitRoots: the inode limit bounds the scan as a whole, also when it has several roots.
